@@ -233,7 +233,9 @@ pub fn finish(meta: Meta, mut acc: Acc) -> i32 {
         "wall_s": meta.wall_s,
         "violations": nviol,
     });
-    let edir = root.join("evidence");
+    // VERIF_EVIDENCE_DIR: used by tools/try_seeded.sh so that runs against a deliberately broken tree do not
+    // overwrite the evidence of the real tree
+    let edir = std::env::var_os("VERIF_EVIDENCE_DIR").map(std::path::PathBuf::from).unwrap_or_else(|| root.join("evidence"));
     std::fs::create_dir_all(&edir).unwrap();
     std::fs::write(edir.join(format!("{}.json", meta.prop)), serde_json::to_string_pretty(&ev).unwrap()).unwrap();
     println!(
